@@ -6,6 +6,7 @@ CONSTANTS
   MethodNames = {"f"}
   SelfKinds = {"pk", "none"}
   BaseNaming = "pos"
+  FixedMemberWithoutSelf = TRUE
   RMutant = "child_unbound_ok"
   MaxExpected = 1
   MaxActual = 1
